@@ -52,6 +52,37 @@ theorem c13_bc3_block_bc1modes (data : Bytes) (buf : List UInt32)
   obtain ⟨buf', h1, h2, _, h4⟩ := bc3_blockOK data buf hd hb (fun _ _ => trivial)
   exact ⟨buf', h1, h2, h4⟩
 
+/-  Full statement against the format documents (colour half always 4-colour):
+
+      theorem c13_bc3_block … : … PixelOK .always4 .bc3 (data.take 16) i (pxOfWord w)
+
+    for all blocks.  False for the code that exists (`c13_bc3_colour_witness` below); proved for
+    every block whose colour endpoints satisfy `q0 > q1` — the only ones a conforming BC3 encoder
+    emits apart from solid-colour blocks: -/
+theorem c13_bc3_block_partial (data : Bytes) (buf : List UInt32)
+    (hd : 16 ≤ data.length) (hb : buf.length = 16)
+    (hq : leNat ((data.drop 8).take 2) > leNat ((data.drop 10).take 2)) :
+    ∃ buf', decodeBc3Block data buf = .ok buf' ∧ buf'.length = 16 ∧
+      ∀ i, i < 16 → ∃ w, buf'[i]? = some w ∧
+        canonPixel .always4 .bc3 (data.take 16) i = some (pxOfWord w) ∧
+        PixelOK .always4 .bc3 (data.take 16) i (pxOfWord w) := by
+  obtain ⟨buf', h1, h2, h4⟩ := c13_bc3_block_bc1modes data buf hd hb
+  refine ⟨buf', h1, h2, ?_⟩
+  intro i hi
+  obtain ⟨w, e1, e2, e3⟩ := h4 i hi
+  have hagree : (colourAt true ((data.take 16).drop 8) i).map (·.1)
+      = (colourAt false ((data.take 16).drop 8) i).map (·.1) := by
+    obtain ⟨d0, d1, d2, d3, d4, d5, d6, d7, rest, rfl⟩ := exists_eight data (by omega)
+    obtain ⟨c0, c1, c2, c3, c4, c5, c6, c7, rest', rfl⟩ := exists_eight rest (by simp at hd; omega)
+    simp only [List.drop_succ_cons, List.drop_zero, List.take_succ_cons, List.take_zero] at hq
+    simp [colourAt, colourEntry, hq]
+  exact ⟨w, e1, (bc3_conv_agree _ _ hagree (pxOfWord w)).2 ▸ e2, (bc3_conv_agree _ _ hagree (pxOfWord w)).1 e3⟩
+
+/-- non-vacuity: colour half `q0 = 0xFFFF > q1 = 0x0000` -/
+example : leNat (([1, 2, 3, 4, 5, 6, 7, 8, 0xFF, 0xFF, 0, 0, 0xE4, 0, 0, 0] : Bytes).drop 8 |>.take 2)
+    > leNat (([1, 2, 3, 4, 5, 6, 7, 8, 0xFF, 0xFF, 0, 0, 0xE4, 0, 0, 0] : Bytes).drop 10 |>.take 2) := by
+  decide
+
 /-- **BC5 block, all 2¹²⁸ blocks**: first half → red, second half → green, blue and alpha are
 whatever the shared buffer held (0 and 255 from its initialisation, preserved by every block). -/
 theorem c13_bc5_block (conv : Bc3Colour) (data : Bytes) (buf : List UInt32)
